@@ -14,7 +14,8 @@ A report block is everything from "WARNING: ThreadSanitizer: <kind>" to its "SUM
 Its *access stacks* are the stacks under "Read/Write/Atomic read/... of size N at ... by ..."
 and "Previous read/write ... by ..." (data races, use-after-free races) - thread-creation,
 mutex-creation, "Location is heap block ... allocated by" and "As if synchronized via sleep"
-stacks are never looked at.  For the other report kinds (lock-order inversion, mutex misuse,
+stacks play no role in the decision whether a report counts (the allocation stack is used
+for the key only).  For the other report kinds (lock-order inversion, mutex misuse,
 ...) every stack that is not a thread-creation stack is treated as an access stack.
 
 A frame is a *Celma frame* when its function lives in namespace `celma::` or its source file
@@ -40,16 +41,30 @@ configuration is run several times.
 
 De-duplication / stable key
 ---------------------------
-    tsan|<funcA>|<funcB>            (data race; other kinds: tsan:<kind>|...)
-funcX = `<source file name>:<function name>` (directories, namespaces/classes, template
-arguments, parameter lists and line numbers stripped; a lambda is called `lambda`) of the
-INNERMOST Celma frame of the stack, i.e. the library function that performs (or directly
-leads to) the access; for a harness-only stack `harness:<function>`.  (The file name is part
-of the key because gcc's TSan symbolizer prints unqualified function names.)
-The two names are sorted.  The innermost frame is used because it names the defect
-("tokenizer.hpp:convChar2String") while the outermost Celma frame is nearly always the same API
-entry ("handler.cpp:evalArguments") for unrelated defects and differs between call paths of one
-defect; the outermost Celma frames are kept in the sample (`entry`) for orientation.
+One shared object = one defect, therefore the key names the racing OBJECT when TSan knows it
+and the racing functions otherwise (other report kinds: prefix tsan:<kind>):
+
+    tsan|global:<variable>      "Location is global '...'": the variable, namespaces / template
+                                arguments / parameter lists stripped
+                                (tsan|global:Tokenizer::convChar2String::s, tsan|global:Singleton::mpObject)
+    tsan|heap:<function>        "Location is heap block ... allocated by": innermost Celma frame of
+                                the allocation stack (tsan|heap:singleton.hpp:instance)
+    tsan|<funcA>|<funcB>        location on a stack / unknown: innermost Celma frame of each access
+                                stack, sorted (tsan|managed_thread.hpp:ManagedThread|managed_thread.hpp:lambda);
+                                a harness-only stack is `harness:<function>`
+
+A frame is written `<source file name>:<function name>` (directories, namespaces/classes,
+template arguments, parameter lists and line numbers stripped; a lambda is `lambda`); the file
+name is part of it because gcc's TSan symbolizer prints unqualified function names; a frame
+without debug info (COMDAT copy of an inline function) is written `Class::function`.
+The INNERMOST Celma frame is used (the library function that performs or directly leads to the
+access) because it names the defect, while the outermost Celma frame is nearly always the same
+API entry (handler.cpp:evalArguments) for unrelated defects.  Keying by the object gives exactly
+one key for the usual defect (a function-local static / static member touched from several
+functions); for a whole container shared by mistake (mutant "constraint container global
+again") function pairs alone gave ~60 keys, object keys about half of that (TSan prints no
+location for blocks that were already freed).  The racing function pairs and the outermost
+Celma frames ("API entry") of all reports of a key are listed in the detail text of the finding.
 """
 import glob
 import os
@@ -101,26 +116,54 @@ def _strip_args(f):
             if ch == op:
                 depth += 1
             elif ch == cl:
-                depth -= 1
+                depth = max(0, depth - 1)
             elif depth == 0:
                 out.append(ch)
         f = "".join(out)
     return f
 
 
+def _qualified(func):
+    """'T& std::vector<celma::X>::emplace_back<celma::X>(celma::X&&)' -> 'std::vector::emplace_back':
+    qualified name of the function itself, without return type, template and call arguments"""
+    f = re.sub(r"\[abi:[^\]]*\]", "", func)
+    f = re.sub(r"operator\s*\(\)", "lambda", f)
+    f = re.sub(r"operator\s*(<<=?|>>=?|<=>?|>=|<|>|->\*?)", "operator_x", f)
+    f = re.sub(r"\{lambda\(.*?\)#\d+\}", "lambda", f)
+    f = _strip_args(f)
+    f = re.sub(r"\s+(const|volatile)\b", "", f).strip()
+    f = re.sub(r"operator\s+", "operator_", f)
+    return f.split(" ")[-1] if f else f
+
+
 def is_celma_frame(frame, srcroot):
-    """source file below <repo>/src, or the function itself (not one of its template / call
-    arguments, e.g. std::__invoke<celma::...>) is a member of namespace celma"""
+    """source file below <repo>/src, or the function itself (not its return type or one of its
+    template / call arguments, e.g. std::__invoke<celma::...>) is a member of namespace celma"""
     func, path = frame
     if path and path.startswith(srcroot):
         return True
-    return "celma::" in _strip_args(re.sub(r"operator\s*\(\)", "lambda", func))
+    return "celma::" in _qualified(func)
 
 
 def frame_name(frame):
     """stable name of a frame: '<source file>:<function>' (no directories, no line numbers)"""
     func, path = frame
-    return "%s:%s" % (os.path.basename(path) if path else "?", short_func(func))
+    if path and path != "<null>":
+        return "%s:%s" % (os.path.basename(path), short_func(func))
+    # no debug info for this address (COMDAT copy of an inline function): the symbol table gives
+    # the qualified name -> 'Class::function'
+    q = [p for p in _qualified(func).split("::") if p]
+    return "::".join(q[-2:]) if q else "?"
+
+
+_NS = ("celma", "common", "detail", "prog_args", "container", "format", "log", "appl", "files", "filter",
+       "formatting", "filename", "indirect_access", "")
+
+
+def global_name(name):
+    """'celma::common::Tokenizer::convChar2String(char)::s' -> 'Tokenizer::convChar2String::s'"""
+    q = [p for p in _qualified(name).split("::") if p not in _NS]
+    return "::".join(q[-3:]) if q else "?"
 
 
 class Stack:
@@ -140,10 +183,14 @@ class Report:
     def __init__(self, kind, text):
         self.kind, self.text = kind, text
         self.stacks = []
+        self.funcs = []
         self.key = None
         self.entry = []
         self.counted = False
         self.why = ""
+        self.loc_kind = None      # 'global' | 'heap' | None (stack, TLS, unknown)
+        self.loc_name = None      # name of the global
+        self.alloc = None         # Stack: where the heap block was allocated
 
 
 def _parse_block(text):
@@ -159,6 +206,15 @@ def _parse_block(text):
         if line.startswith("  ") and not line.startswith("    ") and not line.lstrip().startswith("#"):
             # a section header
             hdr = line.strip()
+            lm = re.match(r"Location is global '(.+)' of size \d+", hdr)
+            if lm:
+                rep.loc_kind, rep.loc_name = "global", lm.group(1)
+                cur = None
+                continue
+            if re.match(r"Location is heap block of size \d+ at \S+ allocated by", hdr):
+                rep.loc_kind = "heap"
+                rep.alloc = cur = Stack(hdr)
+                continue
             if is_race:
                 take = bool(_ACCESS.match(line))
             else:
@@ -238,8 +294,16 @@ def judge(rep, min_celma_stacks=2, srcroot=None):
     if len(names) == 1:
         names.append("-")
     names = sorted(names[:2]) + sorted(names[2:])
+    rep.funcs = names[:2]
     prefix = "tsan" if rep.kind == "data race" else "tsan:" + re.sub(r"[^\w]+", "-", rep.kind).strip("-")
-    rep.key = "|".join([prefix] + names[:2])
+    if rep.loc_kind == "global":
+        rep.key = "%s|global:%s" % (prefix, global_name(rep.loc_name))
+    elif rep.loc_kind == "heap" and rep.alloc is not None and rep.alloc.frames:
+        cf = rep.alloc.celma_frames(srcroot)
+        hf = rep.alloc.harness_frames(srcroot)
+        rep.key = "%s|heap:%s" % (prefix, frame_name(cf[0]) if cf else ("harness:" + short_func(hf[0][0]) if hf else "runtime"))
+    else:
+        rep.key = "|".join([prefix] + names[:2])
     rep.counted = True
     return rep
 
@@ -255,7 +319,27 @@ class TsanResult:
         self.runs = 0
 
 
-def _collect(logprefix, min_celma_stacks, tr, batch):
+_ERRBLOCK = re.compile(r"==\d+==\s*ERROR: ThreadSanitizer: (\S+).*?(?=\n==\d+==\s*ABORTING|\Z)", re.S)
+
+
+def _classify_crashes(text, r, srcroot):
+    """a process that died under TSan (SEGV, failed CHECK ...) wrote its report into the log
+    file, not to stderr: give run_worker's 'crash:unknown' entries their kind and function"""
+    blocks = list(_ERRBLOCK.finditer(text))
+    for c in r.crashes:
+        if c["kind"] != "crash:unknown" or not blocks:
+            continue
+        b = blocks.pop(0)
+        c["kind"] = "tsan:" + b.group(1)
+        c["report"] = b.group(0)[:6000]
+        for line in b.group(0).splitlines():
+            fm = _FRAME.match(line)
+            if fm and is_celma_frame((fm.group(2), fm.group(3)), srcroot):
+                c["func"] = frame_name((fm.group(2), fm.group(3)))
+                break
+
+
+def _collect(logprefix, min_celma_stacks, tr, batch, r=None):
     for p in sorted(glob.glob(logprefix + ".*")):
         try:
             with open(p, "r", errors="replace") as fh:
@@ -263,6 +347,8 @@ def _collect(logprefix, min_celma_stacks, tr, batch):
             os.unlink(p)
         except OSError:
             continue
+        if r is not None and r.crashes:
+            _classify_crashes(text, r, os.path.join(vc.REPO, "src") + os.sep)
         for rep in parse_reports(text):
             tr.raw += 1
             judge(rep, min_celma_stacks)
@@ -276,10 +362,12 @@ def _collect(logprefix, min_celma_stacks, tr, batch):
             tr.counted += 1
             e = tr.by_key.get(rep.key)
             if e is None:
-                tr.by_key[rep.key] = dict(count=1, sample=rep.text[:8000], entry=sorted(set(rep.entry)),
-                                          batch=batch, kind=rep.kind)
-            else:
-                e["count"] += 1
+                e = tr.by_key[rep.key] = dict(count=0, sample=rep.text[:24000], entry=set(), pairs={},
+                                              batch=batch, kind=rep.kind)
+            e["count"] += 1
+            e["entry"].update(rep.entry)
+            pr = " <-> ".join(rep.funcs)
+            e["pairs"][pr] = e["pairs"].get(pr, 0) + 1
 
 
 def run_batches(exe, base_args, batches, tag, min_celma_stacks=2, repeat=1, parallel=4, timeout=900,
@@ -307,8 +395,8 @@ def run_batches(exe, base_args, batches, tag, min_celma_stacks=2, repeat=1, para
     with ThreadPoolExecutor(max_workers=max(1, parallel)) as ex:
         for j, prefix, r in ex.map(one, jobs):
             tr.runs += 1
+            _collect(prefix, min_celma_stacks, tr, (j[0], j[1]), r)
             tr.res.merge(r)
-            _collect(prefix, min_celma_stacks, tr, (j[0], j[1]))
     return tr
 
 
@@ -345,8 +433,10 @@ def report_all(chk, tr, mode, replay_base):
     chk.count(mode + ".tsan_reports_unrestored_stack", tr.unrestored)
     chk.count(mode + ".tsan_reports_outside_rule", tr.raw - tr.counted - tr.unrestored)
     for key, e in sorted(tr.by_key.items()):
-        detail = "%d ThreadSanitizer report(s) '%s' in mode %s; API entry frames: %s" % (
-            e["count"], e["kind"], mode, ", ".join(e["entry"]))
+        pairs = sorted(e["pairs"].items(), key=lambda kv: -kv[1])
+        detail = "%d ThreadSanitizer report(s) '%s' in mode %s; racing functions: %s%s; API entry frames: %s" % (
+            e["count"], e["kind"], mode, "; ".join("%s (x%d)" % kv for kv in pairs[:6]),
+            " ... +%d more pairs" % (len(pairs) - 6) if len(pairs) > 6 else "", ", ".join(sorted(e["entry"])))
         rb = dict(replay_base, mode=mode, idx=e["batch"][0], count=e["batch"][1], tsan_key=key, report=e["sample"])
         for _ in range(e["count"]):
             chk.report(key, detail, rb)
@@ -387,8 +477,13 @@ def run_spec(spec, tier, seed, only_modes=None):
             if m.get("tiers") and tier not in m["tiers"]:
                 continue
             todo.append(m)
-        for m in todo:      # build everything first (cached)
-            _build(spec, m)
+        # build everything first (cached); the flavours in parallel, their long compile tails overlap
+        vc.scratch()
+        uniq = {}
+        for m in todo:
+            uniq.setdefault((m.get("harness", spec.get("default_harness")), m["flavour"]), m)
+        with ThreadPoolExecutor(max_workers=max(1, len(uniq))) as ex:
+            list(ex.map(lambda mm: _build(spec, mm), uniq.values()))
         distinct = 0
         for m in todo:
             h, exe = _build(spec, m)
